@@ -84,7 +84,11 @@ def run(check):
                   "in generated code; the kind of file-system object the configuration path is (regular, `..` / relative path, hard / "
                   "symbolic links, FIFO, /dev/stdin, inherited pipe; missing, dangling, directory, loop) x language x settings x "
                   "option x shape of the text, judged against the run with the same text in a regular file; -g never overwrites "
-                  "(also onto links, directories, FIFOs); the written file reloads to the same output; non-trivial = at "
+                  "(also onto links, directories, FIFOs); the written file reloads to the same output; what else lies along the "
+                  "ancestor chain between the working directory and the typeshare.toml that is to be found (`.git` directory / file, "
+                  "Cargo.toml, .hg, .typeshare, typeshare.toml as a directory, look-alike names, an empty typeshare.toml closer by, "
+                  "$HOME) x 1-6 levels x kind of working directory (plain, through symbolic links, `.` / `..` components) x where the "
+                  "input lies x language x settings x option: the nearest regular typeshare.toml decides, alone; non-trivial = at "
                   "least one of option / key is present")
     cases = []
     for name, flag, (sec, key), idx, lang in OPTS:
@@ -197,6 +201,8 @@ def run(check):
         config_object_kind_part(check)
     if not check.has_failing():
         generate_onto_object_part(check)
+    if not check.has_failing():
+        ancestor_chain_part(check)
     check.exhaustive = True
     check.extra["exhaustive_scope"] = "7 settings x {option absent, present} x {key absent, present} x {-c, ancestor search}"
     check.assumptions += ["TOML (de)serialisation by the `toml` crate and option parsing by `clap` are external; they are exercised through the real binary",
@@ -760,6 +766,380 @@ def generate_onto_object_part(check):
                     case={"kind": kind, "explicit": explicit, "existing_configuration": keep},
                     impl={"rc": r["rc"], "stderr": r["err"][-400:], "changed": changed}, failing_input=True)
                 return
+
+
+# ----------------------------------------------------------------------------- what lies along the ancestor chain
+
+def _put(path, text=""):
+    os.makedirs(os.path.dirname(path), exist_ok=True)
+    with open(path, "w", encoding="utf-8", newline="") as f:
+        f.write(text)
+
+
+def _git_directory(d, decoy):
+    _put(d + "/.git/HEAD", "ref: refs/heads/main\n")
+    _put(d + "/.git/config", "[core]\n\trepositoryformatversion = 0\n\tbare = false\n")
+    os.makedirs(d + "/.git/objects")
+    os.makedirs(d + "/.git/refs/heads")
+
+
+def _lookalikes(d, decoy):
+    for n in ("Typeshare.toml", ".typeshare.toml", "typeshare.toml.bak", "typeshare.tml", "typeshare.yaml", "typeshare.toml~", "typeshare"):
+        _put(os.path.join(d, n), decoy)
+
+
+def _project_files(d, decoy):
+    _put(d + "/package.json", "{\"name\": \"x\", \"private\": true}\n")
+    _put(d + "/go.mod", "module example.com/x\n\ngo 1.21\n")
+    _put(d + "/rust-toolchain.toml", "[toolchain]\nchannel = \"stable\"\n")
+    _put(d + "/.editorconfig", "root = true\n")
+    _put(d + "/Cargo.lock", "version = 3\n")
+    _put(d + "/.gitmodules", "[submodule \"x\"]\n\tpath = x\n\turl = ../x.git\n")
+
+
+# things a directory on the chain may hold besides (or instead of) a regular typeshare.toml: label -> (names it creates, builder).
+# None of them is a regular file called typeshare.toml, so none of them takes part in the search or ends it
+ALONG = {
+    "nothing": ((), lambda d, decoy: None),
+    "`.git` directory (repository root / nested checkout)": ((".git",), _git_directory),
+    "`.git` empty directory": ((".git",), lambda d, decoy: os.makedirs(d + "/.git")),
+    "`.git` file (submodule / linked worktree)": ((".git",), lambda d, decoy: _put(d + "/.git", "gitdir: ../.git/modules/%s\n" % os.path.basename(d))),
+    "Cargo.toml of a package": (("Cargo.toml",), lambda d, decoy: _put(d + "/Cargo.toml", "[package]\nname = \"%s\"\nversion = \"0.1.0\"\nedition = \"2021\"\n" % os.path.basename(d))),
+    "Cargo.toml of a workspace": (("Cargo.toml",), lambda d, decoy: _put(d + "/Cargo.toml", "[workspace]\nmembers = [\"*\"]\nresolver = \"2\"\n")),
+    "`.hg` directory": ((".hg",), lambda d, decoy: _put(d + "/.hg/requires", "revlogv1\nstore\n")),
+    "`.svn` and `.jj` directories": ((".svn", ".jj"), lambda d, decoy: (os.makedirs(d + "/.svn"), os.makedirs(d + "/.jj/repo"))),
+    "`.typeshare` directory holding a typeshare.toml": ((".typeshare",), lambda d, decoy: (_put(d + "/.typeshare/typeshare.toml", decoy), _put(d + "/.typeshare/config.toml", decoy))),
+    "`.typeshare` file": ((".typeshare",), lambda d, decoy: _put(d + "/.typeshare", decoy)),
+    "typeshare.toml that is a directory (holding a typeshare.toml)": (("typeshare.toml",), lambda d, decoy: _put(d + "/typeshare.toml/typeshare.toml", decoy)),
+    "typeshare.toml that is an empty directory": (("typeshare.toml",), lambda d, decoy: os.makedirs(d + "/typeshare.toml")),
+    "look-alike names (Typeshare.toml, .typeshare.toml, typeshare.toml.bak ...)": (
+        ("Typeshare.toml", ".typeshare.toml", "typeshare.toml.bak", "typeshare.tml", "typeshare.yaml", "typeshare.toml~", "typeshare"), _lookalikes),
+    "`.gitignore` and `.ignore` that list typeshare.toml": ((".gitignore", ".ignore"), lambda d, decoy: (_put(d + "/.gitignore", "typeshare.toml\n/target\n"), _put(d + "/.ignore", "typeshare.toml\n"))),
+    "other projects' root files (package.json, go.mod, rust-toolchain.toml, .editorconfig root, Cargo.lock, .gitmodules)": (
+        ("package.json", "go.mod", "rust-toolchain.toml", ".editorconfig", "Cargo.lock", ".gitmodules"), _project_files),
+    "the home directory ($HOME)": ((), None),
+}
+# those of them that hold a configuration text of their own (whose values must never show)
+WITH_TEXT = ["`.typeshare` directory holding a typeshare.toml", "`.typeshare` file", "typeshare.toml that is a directory (holding a typeshare.toml)",
+             "look-alike names (Typeshare.toml, .typeshare.toml, typeshare.toml.bak ...)"]
+# a *regular* typeshare.toml closer to the working directory than the one with the settings: it is the nearest, so it decides - alone
+CLOSER = ["an empty typeshare.toml closer by", "a comments-only typeshare.toml closer by", "a typeshare.toml with other settings closer by"]
+NO_FILE = "no regular typeshare.toml anywhere (look-alikes and a typeshare.toml directory only)"
+WORKDIRS = ["plain", "plain", "reached through a symbolic link to it", "reached through a symbolic link to an ancestor",
+            "spelled with `.` and `..` components"]
+INPUTS = ["src (relative)", ". (relative)", "absolute path below the working directory", "a directory elsewhere with a typeshare.toml of its own above it"]
+LEVEL_NAMES = ["mono", "services", "rust", "crates", "app", "core", "backend", "vendor", "shared", "model", "pkg", "w"]
+
+
+def nearest_typeshare_toml(cwd):
+    """the documented rule, evaluated on the file system: `typeshare.toml` in the current directory or the nearest of its parent
+    directories.  The current directory is the process's (a directory, not a spelling: symbolic links resolved), a candidate
+    counts when it is a regular file (possibly behind a link)"""
+    d = os.path.realpath(cwd)
+    while True:
+        p = os.path.join(d, "typeshare.toml")
+        if os.path.isfile(p):
+            return p
+        up = os.path.dirname(d)
+        if up == d:
+            return None
+        d = up
+
+
+def listing(root, skip=()):
+    """{relative path: what it is} of everything under root, for the replay"""
+    out = {}
+    for d, dirs, files in os.walk(root):
+        dirs[:] = sorted(x for x in dirs if os.path.relpath(os.path.join(d, x), root) not in skip)
+        for x in list(dirs):
+            p = os.path.join(d, x)
+            if os.path.islink(p):
+                out[os.path.relpath(p, root)] = "symbolic link -> " + os.readlink(p)
+                dirs.remove(x)
+            elif not os.listdir(p):
+                out[os.path.relpath(p, root) + "/"] = "empty directory"
+        for x in sorted(files):
+            p = os.path.join(d, x)
+            if os.path.islink(p):
+                out[os.path.relpath(p, root)] = "symbolic link -> " + os.readlink(p)
+            else:
+                t = open(p, encoding="utf-8", errors="replace").read()
+                out[os.path.relpath(p, root)] = t if len(t) < 1500 else t[:1500] + "..."
+    return out
+
+
+def first_difference(a, b, label_a, label_b):
+    """first differing line of two texts, in words"""
+    la, lb = a.split("\n"), b.split("\n")
+    for i, (x, y) in enumerate(zip(la, lb)):
+        if x != y:
+            return "line %d: %s %r, %s %r" % (i + 1, label_a, x, label_b, y)
+    return "%d vs %d lines; extra: %r" % (len(la), len(lb), (la[len(lb):] or lb[len(la):])[:3])
+
+
+def ancestor_chain_part(check):
+    """Dimension: *what else lies along the ancestor chain* between the working directory and the directory that holds the
+    typeshare.toml to be discovered (no -c).  The file sits 1-6 levels above the working directory; every directory from there
+    down to the working directory (and the one above) may hold: a `.git` directory (full or empty) or a `.git` *file* (submodule,
+    linked worktree), a package's or a workspace's Cargo.toml, `.hg`, `.svn` / `.jj`, a `.typeshare` directory or file, a
+    *directory* called typeshare.toml (empty, or holding a typeshare.toml), look-alike names (Typeshare.toml, .typeshare.toml,
+    typeshare.toml.bak ...), .gitignore / .ignore files that list typeshare.toml, other ecosystems' root files, or be $HOME; a regular
+    typeshare.toml - empty, comments only, or with other settings - may lie closer by, another one farther up.  Crossed with: how
+    the working directory is reached (plainly, through a symbolic link to it or to one of its ancestors - with a typeshare.toml
+    next to the link - or spelled with `.` / `..`), where the input lies (relative, `.`, absolute, or elsewhere below a
+    typeshare.toml of its own), the six languages, random settings in every language's section and an option on the command
+    line or none.
+    Demanded (docs/src/usage/configuration.md: "a file called typeshare.toml in your current directory or any of its parent
+    directories"): the settings used are those of the *nearest* regular file of that name found by walking up from the working
+    directory, taken alone - an empty one closer by means the defaults, nothing is merged in from farther up, and nothing else on
+    the way (a repository, workspace or home boundary, a directory of that name) ends the search or stands in for the file.
+    Judged on the output: prefix / package per the precedence rule, the file's mapped names and decorators present, no value of
+    any other typeshare.toml-like text present, and the output is exactly that of the run in the same directory with
+    `-c <that nearest file>`.  Never silently the defaults while such a file exists."""
+    rng = check.rng
+    between = [k for k in ALONG if k != "nothing"] + CLOSER
+    per_lang = len(between) + 3 if check.thorough else 9
+    deck = []
+    for rnd in range(4 if check.thorough else 1):
+        for L in LANGS:
+            with Scratch() as sc:
+                plans = []
+                for i in range(per_lang):
+                    if not deck:
+                        # every kind of thing is the primary one between the working directory and the file once per pass through the
+                        # deck, the repository markers twice
+                        deck = between + ["nothing", NO_FILE, "`.git` directory (repository root / nested checkout)", "`.git` file (submodule / linked worktree)"]
+                        rng.shuffle(deck)
+                    plans.append(chain_scenario(check, sc, "s%d" % i, L, deck.pop()))
+                answers = model([[S("config"), pl["file7"], pl["cli7"], L == "go"] for pl in plans], with_unicode=False)
+                for pl, ma in zip(plans, answers):
+                    if chain_judge(check, sc, L, pl, ma):
+                        return
+
+
+def chain_scenario(check, sc, tag, L, primary):
+    """build one tree below <scratch>/<tag>/ - settings, option and everything else drawn anew - and say how to run in it"""
+    rng = check.rng
+    tables, flags, _, cli7 = random_settings(rng, L)
+    text = toml_text({}, tables)
+    used = set(re.findall(r"\d{3}", text + " ".join(flags)))
+    texts = {}                          # path relative to the scenario -> text of every typeshare.toml-like file but the nearest
+
+    def other_settings(rel):
+        while True:
+            t, _, _, _ = random_settings(rng, L)
+            tx = toml_text({}, t)
+            if not set(re.findall(r"\d{3}", tx)) & used:
+                used.update(re.findall(r"\d{3}", tx))
+                texts[rel] = tx
+                return tx
+
+    dist = rng.randint(1, 6)
+    names = rng.sample(LEVEL_NAMES, dist + 1)
+    levels = ["top"]                    # levels[1] holds the file, levels[-1] is the working directory
+    for n in names:
+        levels.append(levels[-1] + "/" + n)
+    root = os.path.join(os.path.realpath(sc.dir), tag)
+    at = lambda rel: os.path.join(root, rel)
+    for lv in levels:
+        os.makedirs(at(lv), exist_ok=True)
+    env = {}
+    along = []                          # (levels above the working directory, what)
+
+    def place(level, what):
+        d = at(levels[level])
+        above = len(levels) - 1 - level
+        if what in CLOSER:
+            if os.path.lexists(d + "/typeshare.toml"):
+                return
+            if what.startswith("an empty"):
+                _put(d + "/typeshare.toml", "")
+            elif what.startswith("a comments-only"):
+                _put(d + "/typeshare.toml", "# typeshare.toml\n\n   # nothing set here\n")
+            else:
+                _put(d + "/typeshare.toml", other_settings(levels[level] + "/typeshare.toml"))
+        elif what == "the home directory ($HOME)":
+            if "HOME" in env:
+                return
+            env["HOME"] = d
+        else:
+            made, build = ALONG[what]
+            if any(os.path.lexists(os.path.join(d, m)) for m in made):
+                return
+            build(d, other_settings(levels[level] + "/(" + what + ")") if what in WITH_TEXT else "")
+        along.append((above, what))
+        check.count("ancestor-chain along the way: " + what)
+
+    have_file = primary != NO_FILE
+    if have_file:
+        _put(at(levels[1] + "/typeshare.toml"), text)
+        texts[levels[1] + "/typeshare.toml"] = text
+    else:
+        place(rng.randint(1, dist + 1), "look-alike names (Typeshare.toml, .typeshare.toml, typeshare.toml.bak ...)")
+        place(rng.randint(1, dist + 1), "typeshare.toml that is a directory (holding a typeshare.toml)")
+    # the primary thing lies strictly below the file's directory: anywhere from the working directory up to just below the file
+    if primary not in ("nothing", NO_FILE):
+        place(rng.randint(2, dist + 1), primary)
+    # more of them anywhere from the directory above the file's down to the working directory (next to the file too)
+    if primary != "nothing":
+        for level in range(0, dist + 2):
+            if rng.random() < 0.3:
+                what = rng.choice([k for k in ALONG if k != "nothing"] + (CLOSER if level >= 2 and have_file and rng.random() < 0.3 else []))
+                place(level, what)
+    # another typeshare.toml farther up than the file
+    if have_file and rng.random() < 0.5 and not os.path.lexists(at("top/typeshare.toml")):
+        _put(at("top/typeshare.toml"), other_settings("top/typeshare.toml"))
+        check.count("ancestor-chain: another typeshare.toml farther up")
+
+    # how the working directory is reached
+    workdir = rng.choice(WORKDIRS)
+    wd_real = at(levels[-1])
+    cwd = wd_real
+    if workdir == "reached through a symbolic link to it":
+        _put(at("links/typeshare.toml"), other_settings("links/typeshare.toml"))
+        os.symlink(wd_real, at("links/wd"))
+        cwd = at("links/wd")
+    elif workdir == "reached through a symbolic link to an ancestor":
+        k = rng.randint(1, dist)       # the linked ancestor: the file's directory ... the parent of the working directory
+        _put(at("links/typeshare.toml"), other_settings("links/typeshare.toml"))
+        os.symlink(os.path.relpath(at(levels[k]), at("links")), at("links/in"))
+        cwd = os.path.join(at("links/in"), os.path.relpath(wd_real, at(levels[k])))
+    elif workdir == "spelled with `.` and `..` components":
+        os.makedirs(at(levels[-1] + "/src"), exist_ok=True)
+        cwd = rng.choice([wd_real + "/.", wd_real + "/src/..", os.path.dirname(wd_real) + "/./" + os.path.basename(wd_real) + "/"])
+    env["PWD"] = cwd                    # as a shell that has done `cd <that spelling>` hands it on
+
+    # where the input lies
+    where = rng.choice(INPUTS)
+    if where.startswith("a directory elsewhere"):
+        _put(at("elsewhere/proj/src/lib.rs"), SRC_OBJ)
+        _put(at("elsewhere/typeshare.toml"), other_settings("elsewhere/typeshare.toml"))
+        inp = at("elsewhere/proj/src")
+    else:
+        _put(at(levels[-1] + "/src/lib.rs"), SRC_OBJ)
+        inp = {"src (relative)": "src", ". (relative)": ".", "absolute path below the working directory": wd_real + "/src"}[where]
+
+    # what the documented rule finds, and what that file says
+    found = nearest_typeshare_toml(cwd)
+    found_text = open(found, encoding="utf-8").read() if found else None
+    parsed = tomllib.loads(found_text) if found else {}
+    file7 = [parsed.get(sec, {}).get(key, "") for _, _, (sec, key), _, _ in OPTS] if found else None
+    flags, cli7 = list(flags), list(cli7)
+    if L == "scala" and not (file7 or [""] * 7)[4] and cli7[4] is None:
+        # Scala cannot generate without a package at all (a C07 matter): it always has one from somewhere
+        cli7[4] = "com.cli.pk"
+        flags += ["--scala-package", cli7[4]]
+    if found:
+        texts.pop(os.path.relpath(found, root), None)
+    check.count("ancestor-chain distance of the configured file: %d" % dist)
+    check.count("ancestor-chain working directory: " + workdir)
+    check.count("ancestor-chain input: " + where)
+    check.count("ancestor-chain lang %s, option %s" % (L, "given" if flags else "absent"))
+    check.count("ancestor-chain nearest file: " + ("none" if not found else "empty" if not found_text else "comments only" if not parsed
+                                                   else "the configured one" if found_text == text else "other settings closer by"))
+    return dict(tag=tag, root=root, cwd=cwd, env=env, input=inp, flags=flags, cli7=cli7, file7=file7, found=found, found_text=found_text,
+                parsed=parsed, others=texts, dist=dist, along=sorted(along), workdir=workdir, where=where, primary=primary,
+                file_at=levels[1] + "/typeshare.toml" if have_file else None, wd=levels[-1])
+
+
+def chain_judge(check, sc, L, pl, ma):
+    """run the binary in the tree of `pl` and judge what it wrote; True when a violation with a failing input was reported"""
+    ext = EXT[L]
+    root, cwd = pl["root"], pl["cwd"]
+    rel = lambda p: p[len(root) + 1:] if p.startswith(root + "/") else os.path.relpath(p, root)     # keeps `.` / `..` spellings
+
+    def one(name, extra):
+        out = sc.path("%s-out/%s.%s" % (pl["tag"], name, ext))
+        os.makedirs(os.path.dirname(out), exist_ok=True)
+        r = run_cli(["--lang", L, "-o", out] + pl["flags"] + extra + [pl["input"]], cwd=cwd, env=pl["env"])
+        r["output"] = open(out, encoding="utf-8").read() if os.path.exists(out) else None
+        return r
+
+    def same(a, b):
+        return (a["rc"] == 0) == (b["rc"] == 0) and not a["timed_out"] and not b["timed_out"] and a["output"] == b["output"]
+
+    tree = listing(root)
+    sc.write("%s-out/empty.toml" % pl["tag"], "")
+    got = one("discovered", [])
+    ref = one("named", ["-c", pl["found"] or sc.path("%s-out/empty.toml" % pl["tag"])])
+    dflt = one("defaults", ["-c", sc.path("%s-out/empty.toml" % pl["tag"])]) if pl["found_text"] else ref
+    want7 = [c if c is not None else f for c, f in zip(pl["cli7"], pl["file7"] or [""] * 7)]
+    mine = pl["parsed"].get(L, {})
+
+    # the property, judged on what the discovered-configuration run wrote
+    problems = []
+    out = got["output"] or ""
+    if got["timed_out"]:
+        problems.append("the run does not end")
+    elif L == "go" and want7[6] == "":
+        if got["rc"] == 0:
+            problems.append("the run succeeds although no Go package is configured")
+    elif got["rc"] != 0:
+        problems.append("exit status %s: %s" % (got["rc"], last_words(got["err"])))
+    else:
+        obs = observe(L, out)
+        for name, flag, (sec, key), idx, lang in OPTS:
+            k = name if name != "scala-package" else "scala-package-parent"
+            w = want7[idx] if name != "scala-package" else (want7[idx].rsplit(".", 1)[0] if "." in want7[idx] else "")
+            if lang == L and k in obs and obs[k] != w:
+                problems.append("the generated code shows %s = %r; the precedence rule gives %r (option: %r, nearest file: %r)"
+                                % (k, obs[k], w, pl["cli7"][idx], (pl["file7"] or [None] * 7)[idx]))
+        for rust, mapped in mine.get("type_mappings", {}).items():
+            if mapped not in out:
+                problems.append("the file's type mapping %s -> %s is not applied" % (rust, mapped))
+        if L == "swift" and mine.get("default_decorators") and mine["default_decorators"][0] not in out:
+            problems.append("the file's default decorator %s is not applied" % mine["default_decorators"][0])
+        for where, tx in sorted(pl["others"].items()):
+            leak = sorted(v for v in set(re.findall(r"[A-Za-z.]*\d{3}[A-Za-z.]*", tx)) if v in out)
+            if leak:
+                problems.append("values %s of %s - which is not the nearest typeshare.toml - show in the output" % (leak[:4], where))
+    if not problems and not same(got, ref):
+        problems.append("the output differs from that of the run with -c %s in the same directory (exit status %s there): %s"
+                        % (rel(pl["found"]) if pl["found"] else "<an empty file>", ref["rc"],
+                           first_difference(ref["output"] or "", got["output"] or "", "with -c   ", "discovered") if got["rc"] == 0 and ref["rc"] == 0 else
+                           "exit status %s: %s" % (got["rc"], last_words(got["err"]))))
+    silently = bool(pl["found_text"]) and same(got, dflt) and not same(dflt, ref)
+    if silently:
+        lost = sorted(v for v in set(re.findall(r"[A-Za-z.]*\d{3}[A-Za-z.]*", pl["found_text"])) if v in (ref["output"] or "") and v not in out)
+        problems.insert(0, "exit status %s and exactly the result of a run without any configuration file: the file's settings %s are silently "
+                           "replaced by the defaults%s" % (got["rc"], lost[:6], " (the option is applied)" if pl["flags"] else ""))
+
+    check.saw(("ancestor-chain", L, pl["primary"], pl["dist"], pl["workdir"], pl["where"], tuple(pl["along"]), bool(pl["flags"]), pl["found_text"]),
+              nontrivial=bool(pl["along"]) or pl["workdir"] != "plain")
+    check.count("ancestor-chain scenarios")
+    levels_up = lambda n: "in the working directory" if n == 0 else "%d level%s up" % (n, "" if n == 1 else "s")
+    way = "; ".join("%s %s" % (w, levels_up(n)) for n, w in pl["along"]) or "nothing but plain directories"
+    if pl["found"]:
+        fd = os.path.dirname(pl["found"])
+        up = 0
+        d = os.path.realpath(cwd)
+        while d != fd:
+            d, up = os.path.dirname(d), up + 1
+        nearest = "%s (%s, %s)" % (rel(pl["found"]), levels_up(up), "0 bytes" if not pl["found_text"] else "comments only" if not pl["parsed"] else "with settings")
+    else:
+        nearest = "none (no regular file of that name in any ancestor)"
+    cmd = "cd %s && typeshare --lang %s -o /tmp/out.%s %s %s" % (rel(cwd), L, ext, " ".join(pl["flags"]), rel(pl["input"]) if os.path.isabs(pl["input"]) else pl["input"])
+    case = {"lang": L, "options": pl["flags"], "tree": tree, "working_directory": rel(cwd), "working_directory_is": pl["workdir"],
+            "input": pl["input"] if not os.path.isabs(pl["input"]) else rel(pl["input"]), "input_is": pl["where"],
+            "environment": {k: rel(v) for k, v in pl["env"].items()}, "along_the_chain": ["%s: %s" % (levels_up(n), w) for n, w in pl["along"]],
+            "nearest_typeshare_toml": rel(pl["found"]) if pl["found"] else None, "nearest_typeshare_toml_text": pl["found_text"],
+            "replay": "create the files of `tree` (keys are paths, values contents) below an empty directory that has no typeshare.toml in any of "
+                      "its ancestors, then: %s   # compare with the same command plus -c <absolute path of %s>" % (cmd, rel(pl["found"]) if pl["found"] else "an empty file")}
+    if problems:
+        check.violation("%s, configuration to be discovered by the ancestor search; working directory %s (%s), input %s%s; nearest typeshare.toml: %s; "
+                        "along the chain: %s.  The run should use the settings of that nearest file alone - as the run with -c naming it does "
+                        "(exit status %s) - but: %s"
+                        % (L, rel(cwd), pl["workdir"], pl["where"], ", option %s" % " ".join(pl["flags"]) if pl["flags"] else "", nearest, way,
+                           ref["rc"], "; ".join(problems[:4])),
+                        case=case, impl={"rc": got["rc"], "stderr": got["err"][-600:], "output": out[-1500:],
+                                         "run_with_the_nearest_file_named": {"rc": ref["rc"], "output": (ref["output"] or "")[-1500:]}},
+                        model=ma, failing_input=True)
+        return True
+    if ("err" in ma) != (L == "go" and want7[6] == "") or ("ok" in ma and ma["ok"] != want7):
+        check.violation("model: effective settings %s for the nearest file's %s and options %s, the precedence rule gives %s"
+                        % (ma, pl["file7"], pl["cli7"], want7), case=case, model=ma, failing_input=False,
+                        broken="TsV.Props.C20: effective settings of the model differ from option-else-file-else-default")
+    return False
 
 
 def file_only(check):
